@@ -99,11 +99,15 @@ class KroneckerProductAddedDiagLinearOperator(AddedDiagLinearOperator):
                 # as D is assumed to have constant components, we can look solely at the diag_values
                 diag_term = self.diag_tensor._diagonal().clamp(min=1e-7).log().sum(dim=-1)
                 # symeig requires computing the eigenvectors for it to be differentiable
-                evals, _ = self.linear_op._symeig(eigenvectors=True)
-                const_times_evals = KroneckerProductLinearOperator(
-                    *[ee * d.diag_values for ee, d in zip(evals.linear_ops, self.diag_tensor.linear_ops)]
+                evals, _ = self.linear_op._symeig(eigenvectors=True, return_evals_as_lazy=True)
+                # eigenvalues of D^{-1} K are the Kronecker product of the factors' eigenvalues over the constants
+                evals_over_const = KroneckerProductDiagLinearOperator(
+                    *[
+                        DiagLinearOperator(ee._diagonal() / d.diag_values)
+                        for ee, d in zip(evals.linear_ops, self.diag_tensor.linear_ops)
+                    ]
                 )
-                first_term = (const_times_evals._diagonal() + 1).log().sum(dim=-1)
+                first_term = (evals_over_const._diagonal() + 1).log().sum(dim=-1)
                 return diag_term + first_term
 
             else:
